@@ -38,6 +38,8 @@ Decides:
                    elements (tables laid out by character count: the edit-distance matrix of the "did you mean" helper) - forward taint per function family.
  N short names     split_os_argument (and its utf8 twin) never return an empty Short name: every such path pushed onto `name` first (State::construct
                    unwraps its first character).
+ U hash order     no std hash container anywhere in the crate (iteration order differs between runs); I remove guard: State::remove only decrements for an
+                   item inside the scope and present (shared with C05).
 Does not decide: arithmetic facts the audit asserts (e.g. PADDING[..n]); user closures / FromStr assumed total."""
 import re, json
 from core import *
